@@ -21,6 +21,9 @@ extern std::string g_outdir;
 std::string write_replay(const char *prop, const std::string &cls, const std::string &key, uint64_t seed, uint64_t run,
                          const Plan &plan, const Schedule &sched, const std::string &extra);
 
+void drop_task(Plan &p, Schedule &s, int t);
+void drop_op(Plan &p, Schedule &s, int t, int o);
+
 int c12_batch(const Args &a);
 int c12_replay(const std::string &path);
 int c13_batch(const Args &a);
